@@ -4,6 +4,8 @@
 // service/pipelines validation, ...), exactly what otelcol/collector.go does before building a service.
 //
 //	cfgvalidate <docs.ndjson> <out.ndjson>
+//	cfgvalidate seq <sequences.ndjson> <out.ndjson>  (documents loaded one after the other in ONE process, one goroutine:
+//	                                                 input line {"docs": [text..], "types": {..}}, output line {"i", "loads": [output..]})
 //	cfgvalidate walk <trees.ndjson> <out.ndjson>     (walk.go: xconfmap.Validate on generated value trees)
 //
 // input line:  {"doc": "<yaml/json text>", "types": {"receivers":[..],"processors":[..],"exporters":[..],"connectors":[..],"extensions":[..]}}
@@ -44,6 +46,33 @@ type output struct {
 	Err2  string `json:"err2,omitempty"`
 	Panic string `json:"panic,omitempty"`
 	View  *view  `json:"view,omitempty"` // typed configuration as decoded (whenever Get succeeded)
+	// the effective configuration as otelcol/collector.go marshals it for extensions (conf.Marshal(cfg)), restricted
+	// to service::telemetry::{logs,metrics} and the component sections
+	Eff    map[string]any `json:"eff,omitempty"`
+	EffErr string         `json:"eff_err,omitempty"`
+}
+
+func effOf(cfg *otelcol.Config) (map[string]any, error) {
+	conf := confmap.New()
+	if err := conf.Marshal(cfg); err != nil {
+		return nil, err
+	}
+	m := conf.ToStringMap()
+	out := map[string]any{}
+	for _, k := range []string{"receivers", "processors", "exporters", "connectors", "extensions"} {
+		if v, ok := m[k]; ok {
+			out[k] = v
+		}
+	}
+	if svc, ok := m["service"].(map[string]any); ok {
+		if tel, ok := svc["telemetry"].(map[string]any); ok {
+			out["logs"] = tel["logs"]
+			if mm, ok := tel["metrics"].(map[string]any); ok {
+				out["metrics_level"] = mm["level"]
+			}
+		}
+	}
+	return out, nil
 }
 
 // compCfg is the configuration of every test component: a few real fields, a nested struct and a map of
@@ -57,20 +86,38 @@ type nestedCfg struct {
 	Name string `mapstructure:"name" json:"name"`
 }
 
+type optCfg struct {
+	Size int    `mapstructure:"size" json:"size"`
+	Mode string `mapstructure:"mode" json:"mode"`
+}
+
 type compCfg struct {
 	Endpoint string            `mapstructure:"endpoint" json:"endpoint"`
 	Limit    int               `mapstructure:"limit" json:"limit"`
 	Nested   nestedCfg         `mapstructure:"nested" json:"nested"`
 	Table    map[string]rowCfg `mapstructure:"table" json:"table"`
+	// settings with NON-ZERO factory defaults behind a pointer, in a map and in a slice
+	Opt    *optCfg           `mapstructure:"opt" json:"opt"`
+	Labels map[string]string `mapstructure:"labels" json:"labels"`
+	Hosts  []string          `mapstructure:"hosts" json:"hosts"`
 }
 
 func defCfg() component.Config {
-	return &compCfg{Endpoint: "default:1", Limit: 7, Nested: nestedCfg{Name: "dflt"}}
+	return &compCfg{Endpoint: "default:1", Limit: 7, Nested: nestedCfg{Name: "dflt"},
+		Opt: &optCfg{Size: 5, Mode: "m0"}, Labels: map[string]string{"env": "dev"}, Hosts: []string{"h0", "hx"}}
 }
 
 // view is the part of the typed configuration the check compares with what the document wrote.
+type samplingView struct {
+	Enabled    bool `json:"enabled"`
+	Initial    int  `json:"initial"`
+	Thereafter int  `json:"thereafter"`
+}
+
 type view struct {
 	LogsLevel    string                         `json:"logs_level"`
+	LogsEncoding string                         `json:"logs_encoding"`
+	Sampling     *samplingView                  `json:"sampling"`
 	MetricsLevel string                         `json:"metrics_level"`
 	Resource     map[string]*string             `json:"resource"`
 	Comps        map[string]map[string]*compCfg `json:"comps"`
@@ -81,11 +128,15 @@ type view struct {
 func viewOf(cfg *otelcol.Config) *view {
 	v := &view{
 		LogsLevel:    cfg.Service.Telemetry.Logs.Level.String(),
+		LogsEncoding: cfg.Service.Telemetry.Logs.Encoding,
 		MetricsLevel: cfg.Service.Telemetry.Metrics.Level.String(),
 		Resource:     cfg.Service.Telemetry.Resource,
 		Comps:        map[string]map[string]*compCfg{},
 		Pipelines:    map[string]map[string][]string{},
 		Extensions:   []string{},
+	}
+	if sp := cfg.Service.Telemetry.Logs.Sampling; sp != nil {
+		v.Sampling = &samplingView{Enabled: sp.Enabled, Initial: sp.Initial, Thereafter: sp.Thereafter}
 	}
 	sect := func(name string, m map[component.ID]component.Config) {
 		out := map[string]*compCfg{}
@@ -171,6 +222,11 @@ func load(i int, in input) (out output) {
 		return out
 	}
 	out.View = viewOf(cfg)
+	if eff, err := effOf(cfg); err != nil {
+		out.EffErr = err.Error()
+	} else {
+		out.Eff = eff
+	}
 	if err := xconfmap.Validate(cfg); err != nil {
 		out.Stage, out.Err = "validate", err.Error()
 		// the same error value rendered again (a caller that logs it and then prints it): the entry it names must not change
@@ -193,6 +249,13 @@ func main() {
 	if os.Args[1] == "walk" {
 		walk = true
 		os.Args = append(os.Args[:1], os.Args[2:]...)
+	}
+	if os.Args[1] == "seq" {
+		if err := runSeq(os.Args[2], os.Args[3]); err != nil {
+			fmt.Fprintln(os.Stderr, err)
+			os.Exit(1)
+		}
+		return
 	}
 	f, err := os.Open(os.Args[1])
 	if err != nil {
@@ -268,4 +331,56 @@ func main() {
 		os.Exit(1)
 	}
 	o.Close()
+}
+
+type seqIn struct {
+	Docs  []string            `json:"docs"`
+	Types map[string][]string `json:"types"`
+}
+
+type seqOut struct {
+	I     int      `json:"i"`
+	Loads []output `json:"loads"`
+}
+
+// runSeq loads every document of every sequence in order, in this process, on this goroutine: whatever one load
+// leaves behind in process-wide state is there for all later loads.
+func runSeq(in, out string) error {
+	f, err := os.Open(in)
+	if err != nil {
+		return err
+	}
+	defer f.Close()
+	o, err := os.Create(out)
+	if err != nil {
+		return err
+	}
+	bw := bufio.NewWriter(o)
+	sc := bufio.NewScanner(f)
+	sc.Buffer(make([]byte, 1<<20), 1<<26)
+	i := 0
+	for sc.Scan() {
+		if len(sc.Bytes()) == 0 {
+			continue
+		}
+		var s seqIn
+		if err := json.Unmarshal(sc.Bytes(), &s); err != nil {
+			return fmt.Errorf("line %d: %w", i, err)
+		}
+		res := seqOut{I: i}
+		for k, d := range s.Docs {
+			res.Loads = append(res.Loads, load(k, input{Doc: d, Types: s.Types}))
+		}
+		b, _ := json.Marshal(res)
+		bw.Write(b)
+		bw.WriteByte('\n')
+		i++
+	}
+	if err := sc.Err(); err != nil {
+		return err
+	}
+	if err := bw.Flush(); err != nil {
+		return err
+	}
+	return o.Close()
 }
